@@ -7,6 +7,7 @@ import (
 	"github.com/cedar-policy/cedar-go/x/exp/schema"
 	sast "github.com/cedar-policy/cedar-go/x/exp/schema/ast"
 	"github.com/cedar-policy/cedar-go/x/exp/schema/resolved"
+	"github.com/cedar-policy/cedar-go/x/exp/schema/validate"
 )
 
 func init() { kinds["schemaresolve"] = runSchemaResolve }
@@ -168,7 +169,11 @@ func uidSx(u types.EntityUID) *Sx { return L(A("e"), AS(string(u.Type)), AS(stri
 // schemaresolve: <schema text> -> (parse-error) | ((ast (schema ns...)) (verdict (ok (entities ...) (actions ...)) | (err)))
 func runSchemaResolve(payload []*Sx) *Sx {
 	var s schema.Schema
-	if err := s.UnmarshalCedar([]byte(payload[0].Str())); err != nil {
+	if len(payload) > 1 && payload[1].Head() == "json" {
+		if err := s.UnmarshalJSON([]byte(payload[0].Str())); err != nil {
+			return L(A("parse-error"))
+		}
+	} else if err := s.UnmarshalCedar([]byte(payload[0].Str())); err != nil {
 		return L(A("parse-error"))
 	}
 	a := s.AST()
@@ -238,4 +243,91 @@ func runSchemaResolve(payload []*Sx) *Sx {
 		as.List = append(as.List, L(uidSx(u), pl, ap))
 	}
 	return L(L(A("ast"), astSx), L(A("verdict"), L(A("ok"), es, as)))
+}
+
+func init() {
+	kinds["schemainfo"] = runSchemaInfo
+	kinds["typeof"] = runTypeOf
+}
+
+// schemainfo: <schema text> -> (parse-error) | (resolve-error) | (info (entities (name (parents..) (shape..) (tags..))...) (enums name...) (actions uid...))
+func runSchemaInfo(payload []*Sx) *Sx {
+	var s schema.Schema
+	if err := s.UnmarshalCedar([]byte(payload[0].Str())); err != nil {
+		return L(A("parse-error"))
+	}
+	rs, err := s.Resolve()
+	if err != nil {
+		return L(A("resolve-error"))
+	}
+	es := L(A("entities"))
+	var names []string
+	for n := range rs.Entities {
+		names = append(names, string(n))
+	}
+	sort.Strings(names)
+	for _, n := range names {
+		e := rs.Entities[types.EntityType(n)]
+		ps := L(A("parents"))
+		for _, p := range e.ParentTypes {
+			ps.List = append(ps.List, AS(string(p)))
+		}
+		shape := L(A("shape"), L(A("rec")))
+		if e.Shape != nil {
+			shape = L(A("shape"), rrecToSx(e.Shape))
+		}
+		tags := L(A("tags"), A("none"))
+		if e.Tags != nil {
+			tags = L(A("tags"), rtyToSx(e.Tags))
+		}
+		es.List = append(es.List, L(AS(n), ps, shape, tags))
+	}
+	en := L(A("enums"))
+	names = nil
+	for n := range rs.Enums {
+		names = append(names, string(n))
+	}
+	sort.Strings(names)
+	for _, n := range names {
+		en.List = append(en.List, AS(n))
+	}
+	as := L(A("actions"))
+	var uids []types.EntityUID
+	for u := range rs.Actions {
+		uids = append(uids, u)
+	}
+	sort.Slice(uids, func(i, j int) bool { return uids[i].String() < uids[j].String() })
+	for _, u := range uids {
+		act := rs.Actions[u]
+		cx := L(A("context"), A("none"))
+		if act.AppliesTo != nil {
+			cx = L(A("context"), rrecToSx(act.AppliesTo.Context))
+		}
+		as.List = append(as.List, L(uidSx(u), cx))
+	}
+	return L(A("info"), es, en, as)
+}
+
+// typeof: <schema text> <info (ignored)> strict|permissive <principal type> <action uid> <resource type> <expr> -> (ok xTYPENAME) | (err)
+func runTypeOf(payload []*Sx) *Sx {
+	var s schema.Schema
+	if err := s.UnmarshalCedar([]byte(payload[0].Str())); err != nil {
+		return L(A("parse-error"))
+	}
+	rs, err := s.Resolve()
+	if err != nil {
+		return L(A("resolve-error"))
+	}
+	opt := validate.WithStrict()
+	if payload[2].Atom == "permissive" {
+		opt = validate.WithPermissive()
+	}
+	v := validate.New(rs, opt)
+	act := valueFromSx(payload[4]).(types.EntityUID)
+	e := exprFromSx(payload[6])
+	name, terr := v.VerifTypeOf(types.EntityType(payload[3].Str()), act, types.EntityType(payload[5].Str()), e)
+	if terr != nil {
+		return L(A("err"))
+	}
+	return L(A("ok"), AS(name))
 }
